@@ -188,7 +188,7 @@ def run(db, rep, feat, tier):
         k = tm.operand(t["args"][1])
         why = origin(k)
         r.decide(why is not None, "index|%d" % n, where(i), "map indexed by a key of unknown origin: %s" % show(k)[:160], detail={"origin": why})
-    r.floor(6, "map lookups")
+    r.floor(4, "map lookups")      # 6 on the pinned tree; the entry lookup, both manual-edge ends and the successor end are the minimum
 
     # ---------------------------------------------------------------- R3 once-insertion
     r = rep.rule("R3", "K6", "per-address sharing: an instruction graph is inserted only in the Vacant arm of the per-address map, its "
@@ -200,7 +200,9 @@ def run(db, rep, feat, tier):
     ok = len(ins) == 1 and len(vac) == 1 and cfg.dominates(ent[0][0], ins[0][0]) and cfg.dominates(ins[0][0], vac[0][0])
     r.decide(ok, "insert_once", where(ins[0][0]) if ins else db.where(body),
              "ControlFlowGraph::insert must be called once, after the Vacant test, and be followed by recording the indices")
-    occ = [(i, t) for i, t in idx if recv(t, "instruction_indices")]
+    # the recorded indices are read back by indexing the per-address map or through the occupied entry itself
+    occ = [(i, t) for i, t in idx if recv(t, "instruction_indices")] + \
+        [(i, t) for i, t in mir_calls(body) if "OccupiedEntry" in (mir_callee(t) or "") and last_seg(mir_callee(t)) in ("get", "get_mut", "into_mut")]
     ok = len(occ) == 1 and cfg.dominates(ent[0][0], occ[0][0]) and not cfg.dominates(ins[0][0], occ[0][0]) if ins else False
     r.decide(ok, "reuse_when_present", where(occ[0][0]) if occ else db.where(body), "the Occupied arm must reuse the recorded indices")
 
@@ -213,8 +215,7 @@ def run(db, rep, feat, tier):
     bi_ = maps["block_indices"]
     is_bi = lambda a: any(isinstance(x, tuple) and x and x[0] == "call" and str(x[1]).endswith("ops::Index<&Q>>::index") and x[2] and x[2][0] == bi_
                           for x in subterms(a))
-    edge_calls = [i for i, t in mir_calls(body) if (mir_callee(t) or "") in (CFGT + "::edge", CFGT + "::unconditional_edge")
-                  and not is_bi(tm.operand(t["args"][1])) and not is_bi(tm.operand(t["args"][2]))]
+    edge_calls = [i for i, lab, h_, t_ in edge_sites(db, body, tm) if lab != "conditional_edge" and not is_bi(h_) and not is_bi(t_)]
     for nm, start in (("vacant", vac[0][0] if vac else None), ("occupied", occ[0][0] if occ else None)):
         if start is None:
             r.bad("stitch|%s" % nm, db.where(body), "arm not found")
@@ -257,18 +258,17 @@ def run(db, rep, feat, tier):
         return None
 
     n = 0
-    for i, t in mir_calls(body):
-        c = mir_callee(t) or ""
-        if c not in (CFGT + "::edge", CFGT + "::conditional_edge", CFGT + "::unconditional_edge"):
-            continue
-        h, tl = proj(tm.operand(t["args"][1])), proj(tm.operand(t["args"][2]))
+    for i, lab, ht, tt in edge_sites(db, body, tm):
+        h, tl = proj(ht), proj(tt)
         if h is None and tl is None:
             continue       # stitching inside a block: R4
         n += 1
-        r.decide(h == ".1" and tl == ".0", "endpoints|%s|%d" % (last_seg(c), n), where(i),
+        r.decide(h == ".1" and tl == ".0", "endpoints|%s|%d" % (lab, n), where(i),
                  "%s is called with head component %s and tail component %s of the (entry, exit) pairs; an edge must leave the head "
-                 "block's exit (.1) and enter the tail block's entry (.0)" % (last_seg(c), h, tl))
-    r.floor(6, "inter-block edge calls")
+                 "block's exit (.1) and enter the tail block's entry (.0)" % (lab, h, tl))
+    # at least the manual-edge loop and the successor loop each connect blocks (6 direct calls on the pinned tree, 2 when the
+    # duplicate test and the creation are factored into one helper)
+    r.floor(2, "inter-block edge calls")
     binsert = [(i, t) for i, t in calls(body, "BTreeMap::<K, V, A>::insert") if recv(t, "block_indices")]
     rep.anchor(len(binsert) == 1, "block_indices.insert")
     v = tm.operand(binsert[0][1]["args"][2])
@@ -398,6 +398,46 @@ def run(db, rep, feat, tier):
                     found = True
         r.decide(found, "%s|fallthrough_successor" % arch, db.where(b),
                  "%s translate_block never pushes the unguarded successor (address + offset, None)" % arch)
+
+
+EDGE_FNS = (CFGT + "::edge", CFGT + "::conditional_edge", CFGT + "::unconditional_edge")
+
+
+def edge_wrappers(db):
+    """Crate functions that merely forward two of their usize parameters as (head, tail) to the graph's edge functions, the same
+    pair in the same order at every such call: {fn: (head param, tail param)}.  A call to such a wrapper is an edge call."""
+    out = {}
+    for k in db.mir.keys():
+        if not k.startswith("translator::") or "::{closure#" in k or k == TFE:
+            continue
+        b = db.mir[k]
+        sites = [t for i, t in mir_calls(b) if (mir_callee(t) or "") in EDGE_FNS]
+        if not sites:
+            continue
+        tm = terms_of(db, k, {})
+        pairs = set()
+        for t in sites:
+            h, tl = tm.operand(t["args"][1]), tm.operand(t["args"][2])
+            pairs.add((h[1] if h[0] == "param" else None, tl[1] if tl[0] == "param" else None))
+        if len(pairs) == 1:
+            (h, tl), = pairs
+            if h is not None and tl is not None and h != tl:
+                out[k] = (h, tl)
+    return out
+
+
+def edge_sites(db, body, tm):
+    """(block, label, head term, tail term) of every edge test / creation in the body, direct or through a wrapper."""
+    wr = edge_wrappers(db)
+    out = []
+    for i, t in mir_calls(body):
+        c = mir_callee(t) or ""
+        if c in EDGE_FNS:
+            out.append((i, last_seg(c), tm.operand(t["args"][1]), tm.operand(t["args"][2])))
+        elif c in wr:
+            h, tl = wr[c]
+            out.append((i, last_seg(c), tm.operand(t["args"][h - 1]), tm.operand(t["args"][tl - 1])))
+    return out
 
 
 def merge_rules(db, rep, rid="R7"):
